@@ -6,6 +6,7 @@ import Driver.GeomOps
 import Driver.MgrOps
 import Driver.IdOps
 import Driver.FlogOps
+import Driver.GateOps
 /-
   Line-protocol driver: one operation per input line, one canonical result line per operation.
   Imports Model only (core Lean), so it links as a `lean_exe`.
@@ -40,6 +41,9 @@ def step (st : St) (line : String) : St × String :=
   | some (i, r) => ({ st with ids := i }, r)
   | none =>
   match flogOps w with
+  | some r => (st, r)
+  | none =>
+  match gateOps w with
   | some r => (st, r)
   | none => (st, "bad-op")
 
